@@ -5,6 +5,14 @@ HERE = os.path.dirname(os.path.dirname(os.path.abspath(__file__)))
 COMMON_NOTE = ("Trusted: Coq 8.16.1 kernel; extraction (ExtrOcamlBasic only) + ocaml/driver.ml; harness crate and python "
                "generators/comparators; py/gen_constants.py; rustc/cargo. ")
 REG = {
+ "C01": dict(
+   text="Theorem C01_postcondition (coq/Properties/C01.v) over Model/Engine.v -- a Gallina model of SyncEngine::sync (plan, deletion plan, mass-deletion guard, sequential task execution, error budget), StrategyPlanner and the local transfer paths for regular files and directories: for every well-formed filtered source listing, prior destination, comparison mode and --delete setting, a run that is not refused and reports no error leaves every selected entry present with its kind, every file that was absent or differed byte-identical (content identity) with the source's size and mtime -- except the explicitly carried disjunct for updates over a destination >= the delta gate (mtime = time of the run), which is refuted as a theorem (C01_refuted_big_update_mtime = known finding C01-KF1). Tie: generated worlds through the real binary (-j1 --json, hook-scaled gate) compared with the extracted Engine.run on refusal, exit status, error count, event sequence and final destination snapshot; statement-level oracle on the implementation's snapshots.",
+   note="Partial: symbolic links, hard links and xattrs are outside Engine.v (C17/C13); byte-level equality of each transfer path rests on content identity (Delta/Sparse models give the byte-level lemmas for the delta/sparse codecs); single-file mode and -j>1 are exercised by runs only. Hook H1 scales the 10 MiB gate.",
+   technique="Rocq proof (frame lemmas + induction over the task list) + binary-level differential correspondence"),
+ "C03": dict(
+   text="coq/Properties/C03.v: every transfer path that restores the source mtime leaves an entry the next plan skips (all modes except --ignore-times); after a successful run the re-run plans Skip for every selected entry outside the known class (C03_rerun_plans_skip); the block-delta paths are refuted as a theorem (C03_refuted_big_update = known finding C03-KF1). Tie: every C01 world is run twice through the real binary and both runs are compared with the model; oracle: second run reports only skips and leaves content, mtime and inode of every destination entry unchanged.",
+   note="Partial: links/hard links are C17/C13; the remote half (ssh.rs) cannot be executed (no sshd). Same trusted base as C01.",
+   technique="Rocq proof (corollary of the C01 invariant + planner case analysis, refutation witness) + two-run binary correspondence"),
  "C04": dict(
    text="Theorems in coq/Properties/C04.v about a Gallina model of rolling.rs/checksum.rs/generator.rs/applier.rs: rolling checksum = direct checksum after any roll sequence (u32 arithmetic modelled), copy ops in range (unconditional), reconstruction for both generators for all old/new/block sizes (relative to a non-colliding strong hash; closed for the identity instance), wire transparency relative to codec round-trip laws. Tied to the code by differential runs of the extracted model against the real library and sy-remote, and by constants regenerated from the source.",
    note="xxh3/serde_json/zstd are oracles with stated laws; full reads on regular files. All theorems closed under the global context.",
@@ -13,6 +21,10 @@ REG = {
    text="Theorems in coq/Properties/C16.v: the glob matcher equals the declarative glob relation; basename/full-path/directory-subtree rule semantics; first-match decision; CLI rule order; and engine_select (the fold with excluded-directory pruning and size bounds) selects exactly {own first match includes, no excluded ancestor, size in bounds} for every rule list, bound and parent-first listing. Tied to the code by comparing FilterEngine::should_include with the extracted model over rule lists x a path universe and by running the real binary on generated trees/flags and comparing the transferred set with the proved selection; the listing hypothesis is evaluated on every real scan.",
    note="glob crate re-implemented for the grammar literal|?|* (validated by comparison, `**` and [..] outside the model); scanner walk order is a checked hypothesis. All theorems closed under the global context.",
    technique="Rocq proof (induction over the listing with an invariant) + differential correspondence (library and binary)"),
+ "C06": dict(
+   text="coq/Properties/C06.v over Model/Engine.v: without --delete no destination entry lacking a source counterpart is removed or altered (for every run, errors included); the deletion plan is exactly the destination entries absent from the list handed to the planner, so listed entries are never deleted; selected entries survive the deletions of a successful run; spurious ENOENT errors on a stale directory with contents are a theorem about the model (C06_stale_dir_spurious_error = known finding C06-KF1); the engine hands the FILTERED list to the planner (known finding C06-KF2). Tie: worlds with extras/nested stale directories/--exclude through the real binary vs Engine.run, plus one 10 050-entry world for the Bloom-filter path.",
+   note="Partial: the full mirror equality (destination paths = source paths) is checked by the oracle on runs, its model-level proof covers the 'selected entries survive' half and the exact plan; fastbloom is an oracle (no false negatives); worker counts > 1 are C05's subject.",
+   technique="Rocq proof (plan characterisation, frame lemma, refutation witness) + binary-level differential correspondence"),
  "C07": dict(
    text="Decision half proved in coq/Properties/C07.v: the guard exactly as coded in binary64 (Coq primitive floats, kernel-evaluated) refuses whenever the planned deletions exceed t percent of the destination entries, for every destination of up to 200 entries, every d, every t in 0..100 (finite sweep lifted by forallb_forall); for unbounded sizes the same statement is proved relative to the standard model of rounding (theorem named _partial); default threshold protects against an empty source; CLI range 0..100. Placement half (refusal before any change, non-zero status, destination untouched) is checked on the real binary over generated worlds whose ratios sit just below/at/above the threshold, and the binary's decision is compared with the model evaluated inside coqc.",
    note="Partial: the unbounded theorem assumes the standard model |fl x - x| <= 2^-53 |x| and exact int->f64 conversion (instantiation trusted; Flocq bridge not built); refusal-before-any-change is validated by runs, its engine-level theorem is part of C06's engine model. Stdlib real axioms (sig_forall_dec, functional_extensionality_dep) under the _partial theorem; primitive float/int63 operations listed by Print Assumptions are kernel primitives.",
